@@ -59,7 +59,7 @@ func fieldCases() []fieldCase {
 			Lines: []string{"matchIgnoreCase"}, Formats: []string{"variable"},
 			Pairs: map[string]*PairSpec{"PFXIn→PFXOut": {Fields: map[string]*FieldSpec{"FullName": fs("FULLNAME"), "Age": fs("age"), "Name": fs("Name")}}}},
 		{Name: "ignorecase_conv_level", Decls: "type PFXIn struct {\n\tFULLNAME string\n\tAge int\n}\ntype PFXOut struct {\n\tFullName string\n\tAGE int\n}\n", Src: "[]PFXIn", Tgt: "[]PFXOut",
-			Conv: []string{"matchIgnoreCase"},
+			Conv:  []string{"matchIgnoreCase"},
 			Pairs: map[string]*PairSpec{"PFXIn→PFXOut": {Fields: map[string]*FieldSpec{"FullName": fs("FULLNAME"), "AGE": fs("Age")}}}},
 		{Name: "ignoremissing", Decls: in + "type PFXOut struct {\n\tName string\n\tExtra1 int\n\tExtra2 *string\n\tExtra3 []int\n}\n", Src: "PFXIn", Tgt: "PFXOut",
 			Lines: []string{"ignoreMissing"},
